@@ -30,6 +30,8 @@ def cases(draw):
     big = draw(st.integers(0, 5)) == 0      # now and then more instances per class and higher cardinalities
     odd = draw(st.integers(0, 3)) == 0       # literals spelling a node's IRI, classes that are typed / used as values
     g = draw(gg.general(max_nodes=12 if big else 7, max_stmts=48 if big else 30, iri_like_literals=odd, class_typing=odd, quirks=draw(gg.quirk_set(one_in=4)), inst_props=(RDF_TYPE, RDF_TYPE, RDF_TYPE, "http://ex.org/isA")))
+    if draw(st.integers(0, 7)) == 0:
+        g = draw(gg.table_graph())      # many instances of one class, three-level cardinality frequencies
     cfg = draw(gg.switches())
     cfg.update(draw(gg.harmless_extras()))
     cfg["instances_report_mode"] = "mixed"
